@@ -928,6 +928,7 @@ var Prop = &harness.Prop{
 		for _, lc := range []bool{true, false} {
 			u = append(u, refInteropUnit(lc, cbc), refInteropUnit(lc, gcm), refSizesUnit(lc, cbc), refSizesUnit(lc, gcm))
 			u = append(u, refInteropUnit(lc, gmref.SuiteAESCBC), refInteropUnit(lc, gmref.SuiteAESGCM), refSizesUnit(lc, gmref.SuiteAESCBC), refSizesUnit(lc, gmref.SuiteAESGCM))
+			u = append(u, segmentedTransportUnit(cbc, lc), segmentedTransportUnit(gcm, lc), segmentedTransportUnit(gmref.SuiteAESCBC, lc), segmentedTransportUnit(gmref.SuiteAESGCM, lc))
 		}
 		for k := 0; k < 6; k++ {
 			u = append(u, manyRecordsUnit(k))
